@@ -57,7 +57,7 @@ type Type struct {
 	Impl      []string        // raw @implements lines (only used by the all-codes builder)
 	ImplCodes []string        // codes the @implements lines must produce on the type's line
 	File      *File
-	Local     bool // a function-local type that merely shares a name (decoy)
+	Local     bool     // a function-local type that merely shares a name (decoy)
 	DocLines  []string // rendered doc comment (kept so that a twin declaration is byte-identical)
 	Grouped   int      // 0 undecided, 1 plain declaration, 2 inside a type ( ... ) group, 3 parenthesised struct type: type T (struct{...})
 }
@@ -72,11 +72,11 @@ type Func struct {
 }
 
 type Pkg struct {
-	Path    string // import path, e.g. m/d0
-	Dir     string // directory relative to the module root
-	Name    string // declared package name
-	Files   []*File
-	Imports map[string]bool // direct imports of the non-test files (computed at render)
+	Path       string // import path, e.g. m/d0
+	Dir        string // directory relative to the module root
+	Name       string // declared package name
+	Files      []*File
+	Imports    map[string]bool // direct imports of the non-test files (computed at render)
 	AllImports map[string]bool // direct imports of any file incl. tests (computed at render)
 }
 
@@ -128,14 +128,14 @@ const (
 	URecvAssign
 	URecvIncDec
 	URead
-	ULit     // composite literal of T (also &T{}, elided element)
-	UNew     // new(T)
-	UVarZero // var v T (no initialiser), per declared name
+	ULit      // composite literal of T (also &T{}, elided element)
+	UNew      // new(T)
+	UVarZero  // var v T (no initialiser), per declared name
 	UVarInert // var p *T, var _ T, var v = ... : nothing may be reported by CTOR
 	UTypeRef  // a mention of the type by name; Sub says where
 	UFuncRef  // mention of a function; Call says whether it is called
 	UMethodRef
-	UImpl // the type declaration line of a type carrying @implements (all-codes builder)
+	UImpl         // the type declaration line of a type carrying @implements (all-codes builder)
 	URecvOpAssign // *r += 1 inside a method of T
 )
 
@@ -205,16 +205,16 @@ func (ig *Ignore) Tokens() []string {
 }
 
 type Line struct {
-	ID    int
-	Text  string
-	Uses  []*Use
-	Trail *Ignore
+	ID      int
+	Text    string
+	Uses    []*Use
+	Trail   *Ignore
 	Feature string // hostile feature contributed by the line's shape/context ("" = plain)
 	// filled by Render
-	File *File
-	No   int
-	Out  string // rendered text
-	FreeAll bool // exotic shape outside the supported fragment: nothing is demanded of any analyzer on this line
+	File    *File
+	No      int
+	Out     string // rendered text
+	FreeAll bool   // exotic shape outside the supported fragment: nothing is demanded of any analyzer on this line
 }
 
 type Node struct {
@@ -241,8 +241,8 @@ func (p *Prog) NewLine(text string, uses ...*Use) *Line {
 // ---------------------------------------------------------------- configuration (reference file filter)
 
 type Cfg struct {
-	ScanTests    bool
-	ExcludePaths []string
+	ScanTests     bool
+	ExcludePaths  []string
 	ExcludeChecks []string
 }
 
